@@ -168,7 +168,8 @@ class Scheduler:
                 else:
                     nxt = r[0]
                 branch = cur in r and self.workers[cur].next_op not in LOCAL_OPS
-                self.trace_choices.append((self.step, cur if branch else -1, tuple(r)))
+                # forced: the running thread finished or blocked - whoever goes on, no pre-emption is spent
+                self.trace_choices.append((self.step, cur if branch else -1, tuple(r), cur not in r))
                 cur = nxt
                 self.step += 1
                 if self.step > MAX_STEPS:
